@@ -242,9 +242,49 @@ CONFIGS = [  # (MinIter, HasResnorm, HasAbsdelta, Raise, HasX0)
     (0, True, True, False, True), (2, True, True, True, False)]
 
 
+def public_entry_points(ctx, env):
+    """cg / static_cg (the documented entry points) solve Hermitian positive definite systems to the documented tolerance and agree"""
+    jax, jnp, jft, cgm = env
+    rng = np.random.default_rng(ctx.seed + 150)
+    for n, cond, with_x0 in ((3, 10., False), (8, 1e3, True)):
+        qm, _ = np.linalg.qr(rng.normal(size=(n, n)))
+        A = jnp.asarray((qm * np.logspace(0, np.log10(cond), n)) @ qm.T)
+        j = jft.Vector({"v": jnp.asarray(rng.normal(size=n))})
+        x0 = jft.Vector({"v": jnp.asarray(rng.normal(size=n))}) if with_x0 else None
+        mat = lambda x, A=A: jft.Vector({"v": A @ x.tree["v"]})
+        sols = {}
+        for ename, fn in (("cg", cgm.cg), ("static_cg", cgm.static_cg)):
+            ctx.case(("public", n, ename))
+            try:
+                x, info = fn(mat, j, x0, tol=1e-9, maxiter=400, name=None)
+            except Exception as e:
+                ctx.violation(dict(kind="public-raises", entry=ename), "%s (n=%d, condition %g) raised %s: %s" % (ename, n, cond, type(e).__name__, str(e)[:120]), replay=dict(what="public"))
+                continue
+            res = float(jnp.linalg.norm(A @ x.tree["v"] - j.tree["v"])) / float(jnp.linalg.norm(j.tree["v"]))
+            sols[ename] = np.asarray(x.tree["v"])
+            if int(info) != 0 or res > 1e-9 * cond * 10:
+                ctx.violation(dict(kind="public-accuracy", entry=ename), "%s (n=%d, condition %g, tol=1e-9): relative residual %.3g, info %d" % (ename, n, cond, res, int(info)), replay=dict(what="public"))
+        # the starting point is used: one iteration from the exact solution stays there
+        xs = jft.Vector({"v": jnp.asarray(np.linalg.solve(np.asarray(A), np.asarray(j.tree["v"])))})
+        for ename, fn in (("cg", cgm.cg), ("static_cg", cgm.static_cg)):
+            ctx.case(("public-x0", n, ename))
+            try:
+                x, info = fn(mat, j, xs, tol=1e-9, maxiter=1, name=None)
+                res = float(jnp.linalg.norm(A @ x.tree["v"] - j.tree["v"])) / float(jnp.linalg.norm(j.tree["v"]))
+            except Exception as e:
+                ctx.violation(dict(kind="public-raises", entry=ename), "%s started at the solution raised %s: %s" % (ename, type(e).__name__, str(e)[:120]), replay=dict(what="public"))
+                continue
+            if res > 1e-9 * cond * 10:
+                ctx.violation(dict(kind="public-x0", entry=ename), "%s (n=%d, condition %g) started at the exact solution with maxiter=1 returns a point with relative residual %.3g: the starting point is not used" % (
+                    ename, n, cond, res), replay=dict(what="public"))
+        if len(sols) == 2 and not np.allclose(sols["cg"], sols["static_cg"], rtol=1e-7, atol=1e-9):
+            ctx.violation(dict(kind="public-disagree"), "cg and static_cg return different solutions (n=%d, condition %g): max deviation %.3g" % (n, cond, np.max(np.abs(sols["cg"] - sols["static_cg"]))), replay=dict(what="public"))
+
+
 def run(ctx):
     q = ctx.quick
     env = _jax()
+    public_entry_points(ctx, env)
     mi_max = 3 if q else 4
     ctx.constants.update(MaxIter=mi_max)
     # ---- the model -------------------------------------------------------------------------------------------
@@ -341,6 +381,11 @@ def validate_groups(ctx, groups):
 def replay(ctx, doc):
     c = doc["case"]
     env = _jax()
+    if c.get("what") == "public":
+        public_entry_points(ctx, env)
+        ctx.sample(dict(replayed=c))
+        ctx.states = ctx.transitions = 1
+        return
     A, j = np.array(c["A"]), np.array(c["j"])
     x0 = None if c["x0"] is None else np.array(c["x0"])
     items, _ = judge(A, j, x0, c["kw"], c["kind"], env, tuple(c["cfg5"]))
